@@ -111,11 +111,12 @@ class AntiSymmetricTensor(SymbolicTensor):
             if spin_l < spin_u:
                 return True
             elif spin_l == spin_u:  # diagonal spin block
-                # compare the names of indices
-                lower_names = [(int(s.name[1:]) if s.name[1:] else 0,
-                               s.name[0]) for s in lower]
-                upper_names = [(int(s.name[1:]) if s.name[1:] else 0,
-                               s.name[0]) for s in upper]
+                # compare the names of indices (number, letter). Different
+                # indices that share number and letter ('i' and 'i0' or
+                # multiple unregistered indices of the same name) are
+                # distinguished as in sort_idx_canonical.
+                lower_names = [sort_idx_canonical(s)[2:] for s in lower]
+                upper_names = [sort_idx_canonical(s)[2:] for s in upper]
                 if lower_names < upper_names:
                     return True
         return False
